@@ -210,6 +210,11 @@ def adversarial_defs():
                                 M('z', 'u8')]),
         S.Struct('AdvOptBlkOuter', [M('p', 'u16'), M('t', 'AdvOptBlk2'), M('q', 'u8')]),
         # nested enums at depth >= 1 (rendering), optional enum, enum arrays
+        # unions whose arms are a struct and another union, as array elements directly and inside a struct
+        S.Struct('AdvPt', [M('x', 'u16'), M('y', 'u8')]),
+        S.Union('AdvUS', [(1, 'u8', 'a'), (2, 'AdvPt', 'pt'), (3, 'AdvU', 'inner')]),
+        S.Struct('AdvHold', [M('k', 'u8'), M('u', 'AdvUS')]),
+        S.Struct('AdvUArr', [M('us', 'AdvUS', S.DYNAMIC), M('hs', 'AdvHold', S.LIMITED, 3), M('t', 'u8')]),
         S.Struct('AdvDeep', [M('b', 'byte', S.DYNAMIC), M('el', 'AdvElem'), M('oe', 'AdvE', S.OPTIONAL),
                              M('ea', 'AdvE', S.FIXED, 2), M('z', 'u8')]),
     ]
